@@ -11,7 +11,7 @@ import (
 // Name universe of C02/C12/C13: SQL wildcard characters, dots, spaces, non-ASCII, prefix-related siblings, codec-looking
 // suffixes, one >100-byte component.
 var longComp = strings.Repeat("L", 60) + "-" + strings.Repeat("n", 59)
-var nameUniverse = []string{"a", "ab", "a_", "a%", "a.b", "a b", "ä", "aä", ".h", "%", "_", "x.gz", "y.zst", "z.age", "w.pgp", longComp}
+var nameUniverse = []string{"a", "ab", "a_", "a%", "a.b", "a b", "ä", "aä", ".h", "%", "_", "x.gz", "y.zst", "z.age", "w.pgp", longComp, "A", "AB", "Ä"} // incl. names that differ only in case
 
 // exotic components: characters that are special to tar, SQL, shells, globbing, Go path handling or terminals
 var exoticNames = []string{"...", "a\nb", "a\\b", "it's", "a*", "a?", "[a]", "a:b", "trail ", "dot.", "\U0001F600", "a\tb", "\"q\"", "-rf", "~", "a;b", "$x", "a=b", "#"}
